@@ -29,6 +29,12 @@ pub struct DebugSession {
     pub wire: Ghost<Seq<Wire>>,
 }
 
+/// `std::mem::take(&mut v)`: returns the old vector and leaves an empty one (std)
+#[verifier::external_body]
+fn outline_take_events(v: &mut Vec<InternalEvent>) -> (r: Vec<InternalEvent>)
+    ensures r@ == old(v)@, final(v)@.len() == 0,
+{ unimplemented!() }
+
 pub open spec fn no_terminated(w: Seq<Wire>) -> bool { forall|i: int| 0 <= i < w.len() ==> !(#[trigger] w[i] is Terminated) }
 
 /// lifecycle invariant: `terminated` is on the wire at most once, it is the last event, and the latch is set with it
@@ -113,8 +119,8 @@ impl DebugSession {
 //@   outline O_all: `self.send_events(|_| true, &drained)` => `self.send_all_events(&drained)`
 //@   outline O_exited: `self.send_event_body("exited", json!({ "exitCode": code }))` => `self.send_exited(code)`
 //@   outline O_term: `self.send_event("terminated")` => `self.send_terminated()`
-//@   proof before `let mut drained = Vec::new();`: let ghost batch = self.events@;
-//@   loop 0 invariant I_de1: for_idx_1 <= drained@.len() && drained@ == batch && self.wire@ == old(self).wire@ && self.terminated == old(self).terminated && self.events@.len() == 0
+//@   outline O_take: `std::mem::take(&mut self.events)` => `outline_take_events(&mut self.events)`
+//@   loop 0 invariant I_de1: for_idx_1 <= drained@.len() && drained@ == old(self).events@ && self.wire@ == old(self).wire@ && self.terminated == old(self).terminated && self.events@.len() == 0
 //@   loop 0 invariant I_de2: (exit_code is Some) == has_exited(drained@.take(for_idx_1 as int)) && has_terminated == has_term(drained@.take(for_idx_1 as int))
 //@   loop 0 decreases: drained@.len() - for_idx_1
 //@   proof before `for_idx_1 += 1;`: lemma_has_push(drained@.take(for_idx_1 as int), drained@[for_idx_1 as int]); assert(drained@.take(for_idx_1 + 1) =~= drained@.take(for_idx_1 as int).push(drained@[for_idx_1 as int]));
